@@ -55,7 +55,8 @@ def render(kind, cls, n, name):
 class Run(object):
     """One execution of the real protocol."""
 
-    def __init__(self, seg=("whole",), rng=None):
+    def __init__(self, seg=("whole",), rng=None, wrap=True):
+        self.wrap = wrap
         self.seg = seg
         self.rng = rng or random.Random(0)
         self.proto = TorControlProtocol()
@@ -95,6 +96,8 @@ class Run(object):
             p.dataReceived(reply)
         assert p.post_bootstrap.called
         assert tr.value() == b""
+        if not self.wrap:
+            return
         # recorder: wrap the public boundaries on the instance
         orig_q = p.queue_command
         run = self
